@@ -187,6 +187,8 @@ C12_SWEEP_BASES = [
     ("conv", ("get_converter", "ImplTags"), ("get_converter", "Outer"), []),
     # 21: generic models of two modules whose TypeVar bounds are forward references (the shared normaliser's namespace)
     ("plain", ("load", "ListingA", "listing_a"), ("load", "ListingB", "listing_b")),
+    # 22: dump(obj) with the type inferred from the object, two classes, the dumpers exist already
+    ("plain", ("dump_infer", "M1", "o_m1"), ("dump_infer", "M2", "o_m2"), [("dump", "M1", "o_m1"), ("dump", "M2", "o_m2")]),
 ]
 C12_SCALE_BASES = {15, 16, 17, 18, 19}
 # in the scale bases only the sites that read or write the shared caches are swept (the bulk thread is long)
@@ -198,7 +200,7 @@ SCALE_SWEEP_FILES = ("_internal/retort/builtin_mediator.py", "_internal/morphing
 C12_INSTR_SWEEP_BASES = {0, 3, 9}
 C12_QUICK_SITE_SWEEP = [(0, 0), (3, 0), (9, 0), (9, 1), (12, 0), (13, 0),     # (base index, primary thread)
                         (15, 0), (16, 0), (17, 0), (18, 0), (19, 0), (20, 0), (20, 1),
-                        (16, 1), (17, 1), (21, 0)]      # the bulk thread itself stopped once at each cache / compiler site
+                        (16, 1), (17, 1), (21, 0), (22, 0), (22, 1)]      # the bulk thread itself stopped once at each cache / compiler site
 
 
 def _sweep_base(bi):
@@ -211,6 +213,8 @@ def _sweep_base(bi):
             return {"op": "load", "h": 0, "t": o[1], "d": o[2]}
         if o[0] == "dump":
             return {"op": "dump", "h": 0, "t": o[1], "o": o[2]}
+        if o[0] == "dump_infer":
+            return {"op": "dump", "h": 0, "t": o[1], "o": o[2], "infer": True}
         if o[0] == "replace":
             return {"op": "replace", "h": 0, "opts": o[1]}
         if o[0] == "extend":
